@@ -183,3 +183,9 @@ Proof.
   constructor; [left; reflexivity|].
   constructor; [right; cbn; repeat split; lia|constructor].
 Qed.
+
+(* Known finding (class coalesce-tuple-length): calculateMapping panics when an argument's tuple type is shorter
+   than the output tuple type — the model reproduces it. *)
+Theorem C13_mapping_tuple_length_refuted : exists tgt src, calc_mapping mapping_fuel tgt src = Panic P_index.
+Proof. exists (TTuple [TPrim 1; TPrim 1; TPrim 1]), (TTuple [TPrim 1; TPrim 1]). reflexivity. Qed.
+Print Assumptions C13_mapping_tuple_length_refuted.
